@@ -29,6 +29,12 @@ type PropSpec struct {
 		What string `json:"what"`
 		Cmd  string `json:"cmd"`
 	} `json:"bounded"`
+	Globals bool `json:"globals"`
+	Sweep   *struct {
+		Packages []string `json:"packages"`
+		Callees  []string `json:"callees"`
+		MinSites int      `json:"min_sites"`
+	} `json:"sweep"`
 	Replay *struct {
 		Template string `json:"template"`
 		Pkg      string `json:"pkg"`
@@ -154,6 +160,26 @@ func runCheck(args []string) {
 	warns := []string{}
 	assumed := map[string]bool{}
 	var funcErrs []string
+	e.useGlobals = ps.Globals
+	var swept []string
+	if ps.Sweep != nil {
+		// closed-world sweep: every function of the package(s) that contains one of the
+		// call sites is verified against the global call-site clauses
+		swept = e.sweepFunctions(ps.Sweep.Packages, ps.Sweep.Callees)
+		if len(swept) < ps.Sweep.MinSites {
+			fail("sweep found only %d functions with the listed call sites (expected at least %d): vacuity guard", len(swept), ps.Sweep.MinSites)
+		}
+		have := map[string]bool{}
+		for _, k := range ps.Functions {
+			have[k] = true
+		}
+		for _, k := range swept {
+			if !have[k] {
+				e.synthContract(k)
+				ps.Functions = append(ps.Functions, k)
+			}
+		}
+	}
 	for _, k := range ps.Functions {
 		r := e.verifyFunc(k)
 		if r.Err != nil {
